@@ -95,7 +95,9 @@ func genC01(c *Ctx) {
 		deliver := func(from, idx, to int, m Mut) {
 			w := parseWire(s.ps[from].outs[idx])
 			s.Deliver(from, idx, to, m)
-			if m.f == nil && w.kind == 3 && (w.typ == 0x11 || w.typ == 0x12) {
+			// a mutation other than the impersonation leaves from's own signature in the message: if it is accepted
+			// all the same (e.g. the receiver tag replaced by an equally valid one), from still signed this exchange
+			if m.Kind != "impersonate" && w.kind == 3 && (w.typ == 0x11 || w.typ == 0x12) {
 				signedTo[to][from] = true
 			}
 			c01Check(c, s, signedTo)
